@@ -14,7 +14,7 @@ import (
 func init() {
 	register("C13", "Structural clauses of cp -a preservation, decided on all paths of the copier: metadata (owner, mode, times, then xattrs) is applied after the entry's content and, for directories, after the children; inside copyFileInfo the owner change precedes the mode change which precedes the timestamps, the mode change is skipped for symlinks, the owner is the Chowner's answer for the source uid/gid and the mode comes from the source, the symbolic set or the octal option; timestamps use the option or the source's atime/mtime without following links; regular files consult the per-copier inode map and link on a hit; xattrs use only the no-follow calls and route every error through the handler; created parents are chowned, timed and recorded; every non-directory written passes the single change notification. A copied device node gets the source node's device number; no error result in package copy is left unread, and with a non-nil error from a filesystem, path-resolution, pattern or copy call, or from a function of the package, no success return of the caller is reachable (not-exist tolerances tabled and decided with the predicate pinned false; the copy_file_range fallback only through the userspace copy; errors handed to the caller's xattr handler). xattrs are set with flags 0 (create or replace). Does not decide tree equality, numeric mode semantics or hard-link identity at run time.", runC13)
 	register("C14", "Structural clauses of copy containment (package copy, every non-windows build): every filesystem call of the package is classified and a symlink-following call occurs only at tabled sites whose precondition is re-checked (root-resolved arguments, Lstat-classified directories, a target emptied first, a not-symlink guard); UtimesNanoAt carries AT_SYMLINK_NOFOLLOW; every path Copy hands on derives from fs.RootPath / rootPath; inspection of source and target is Lstat-based; the target is emptied (checked) before anything is created on the non-directory arms. rootPath anchors its argument at the root ('/') before splitting it; the first argument of every root resolution in the package is a root of the enclosing function. Does not decide races, fs.RootPath itself or wildcard expansion.", runC14)
-	register("C15", "The one clause of the overlay rules with a structural form: the only destructive calls of package copy are os.Remove behind an Lstat-says-not-a-directory test and os.RemoveAll behind always-replace && target exists && not (both directories); a directory meeting a non-directory returns an error and touches nothing. Destination path selection, merge semantics, wildcards, trailing separators and idempotence are value-level and declined. MkdirAll cannot succeed on an existing non-directory; xattrs are re-applied with flags 0 (create or replace), so merging a directory and repeating a copy do not fail on attributes already present.", runC15)
+	register("C15", "The one clause of the overlay rules with a structural form: the only destructive calls of package copy are os.Remove behind an Lstat-says-not-a-directory test and os.RemoveAll behind always-replace && target exists && not (both directories); a directory meeting a non-directory returns an error and touches nothing. Destination path selection, merge semantics, wildcards, trailing separators and idempotence are value-level and declined. MkdirAll cannot succeed on an existing non-directory, and prepareTargetDir ensures only the parent of a destination that exists; xattrs are re-applied with flags 0 (create or replace), so merging a directory and repeating a copy do not fail on attributes already present.", runC15)
 }
 
 func runC13(c *Ctx) {
@@ -301,6 +301,7 @@ func runC15(c *Ctx) {
 	r14_4(c, "R15.3")
 	r15_4(c, "R15.4")
 	r15_5(c, "R15.5")
+	r15_8(c, "R15.8")
 	// wildcard sources: what counts as a wildcard (shared with C18)
 	wildcardChars(c, "R15.6", "copy.containsWildcards")
 	if c.Unix() {
@@ -547,6 +548,63 @@ func r13_2(c *Ctx, rule string) {
 		oct := c.DerivesFrom(a[1], func(v ssa.Value) bool { return isFieldLoad(v, "copy.copier.mode") }, 12)
 		pn, isP := eng.Strip(a[0]).(*ssa.Parameter)
 		c.R.Check(srcMode && set && oct && isP && c.P.ParamName(pn) == "name", rule, c.siteName(call)+"/mode", c.pos(call), "mode is the source mode, the symbolic set applied to it, or the octal option", "the mode applied does not derive from {source mode, symbolic set, octal option}")
+	}
+	// ... and with the octal option set, from that option alone: what is
+	// computed on the branch `c.mode != nil` takes nothing from the source's
+	// mode (its setuid/setgid/sticky bits lie outside ModePerm and would
+	// survive a "replace the permission bits")
+	var octBlock *ssa.BasicBlock
+	eng.InstrsShallow(fn, func(in ssa.Instruction) {
+		iff, ok := in.(*ssa.If)
+		if !ok {
+			return
+		}
+		bo, ok := iff.Cond.(*ssa.BinOp)
+		if !ok || (bo.Op != token.NEQ && bo.Op != token.EQL) {
+			return
+		}
+		if k, isK := bo.Y.(*ssa.Const); isK && k.IsNil() && isFieldLoad(bo.X, "copy.copier.mode") {
+			if bo.Op == token.NEQ {
+				octBlock = iff.Block().Succs[0]
+			} else {
+				octBlock = iff.Block().Succs[1]
+			}
+		}
+	})
+	for _, call := range c.P.CallsTo(fn, "os.Chmod") {
+		con := c.siteName(call) + "/octal-option-alone"
+		if octBlock == nil || len(octBlock.Preds) != 1 {
+			c.R.OK(rule, con, c.pos(call), "no branch on the octal option of a shape this rule interprets: not decided")
+			continue
+		}
+		isSrcMode := func(v ssa.Value) bool { return c.isCallValueTo(v, "(io/fs.FileInfo).Mode") }
+		bad := false
+		seen := map[ssa.Value]bool{}
+		var walk func(v ssa.Value, d int)
+		walk = func(v ssa.Value, d int) {
+			ph, isPhi := v.(*ssa.Phi)
+			if !isPhi || seen[v] || d > 4 {
+				return
+			}
+			seen[v] = true
+			for i, e := range ph.Edges {
+				pred := ph.Block().Preds[i]
+				if octBlock == pred || octBlock.Dominates(pred) {
+					// computed on the octal branch: nothing of the source's mode
+					if c.DerivesFromAvoiding(e, isSrcMode, func(y ssa.Value) bool {
+						// (do not wander out of the branch through a phi that merges it with others)
+						q, isQ := y.(*ssa.Phi)
+						return isQ && !(octBlock == q.Block() || octBlock.Dominates(q.Block()))
+					}, 10) {
+						bad = true
+					}
+				} else {
+					walk(e, d+1)
+				}
+			}
+		}
+		walk(call.Common().Args[1], 0)
+		c.R.Check(!bad, rule, con, c.pos(call), "with the octal option set the mode applied is computed from the option alone", "with the octal Mode option set the mode applied still takes bits from the source's mode (the source's setuid/setgid/sticky bits survive a replacement of the permission bits): entries do not carry exactly the requested mode")
 	}
 	// the symbolic set is applied to the source mode itself: 'X' and friends
 	// look at the type bits
@@ -1576,5 +1634,103 @@ func xattrSetFlags(c *Ctx, rule string) {
 	}
 	if n == 0 {
 		c.R.OK(rule, c.name(fn)+"/no-set-call", c.P.Pos(fn.Pos()), "no xattr set call on this platform")
+	}
+}
+
+// R15.8: an existing destination is left to the overlay rules.
+//
+// prepareTargetDir creates what is missing above the copy: the destination
+// itself only when nothing is there. When Stat found something at the
+// destination path, the directory it ensures is the parent - whether the
+// existing entry is merged into, replaced or refused is decided later, by the
+// copier (removeTargetIfNeeded under always-replace). MkdirAll on the
+// destination path itself fails with ENOTDIR on a non-directory before the
+// source can win.
+func r15_8(c *Ctx, rule string) {
+	c.R.Rule(rule, "copier.prepareTargetDir: when Stat found an entry at the destination path, MkdirAll is given the parent of the path that is returned, not that path itself")
+	fn := c.Fn(rule, "copy.(*copier).prepareTargetDir")
+	if fn == nil {
+		return
+	}
+	x := c.explorer(fn)
+	var stat ssa.CallInstruction
+	for _, call := range c.P.CallsTo(fn, "os.Stat", "os.Lstat") {
+		if _, isP := eng.Strip(call.Common().Args[0]).(*ssa.Parameter); isP && c.P.ParamName(eng.Strip(call.Common().Args[0]).(*ssa.Parameter)) == "destPath" {
+			stat = call
+		}
+	}
+	con := c.name(fn) + "/existing-destination-not-created"
+	if stat == nil {
+		c.R.OK(rule, con, c.P.Pos(fn.Pos()), "no Stat of the destination path of a shape this rule interprets: not decided")
+		return
+	}
+	pins := map[string]bool{}
+	eng.Instrs(fn, func(in ssa.Instruction) {
+		bo, ok := in.(*ssa.BinOp)
+		if !ok || (bo.Op != token.EQL && bo.Op != token.NEQ) {
+			return
+		}
+		k, isK := bo.Y.(*ssa.Const)
+		if !isK || !k.IsNil() {
+			return
+		}
+		if e, isE := eng.Canon(bo.X).(*ssa.Extract); isE && e.Tuple == stat.Value() && e.Index == 0 {
+			pins[x.RegKey(bo)] = bo.Op == token.NEQ // an entry exists
+		}
+	})
+	if len(pins) == 0 {
+		c.R.OK(rule, con, c.P.Pos(fn.Pos()), "the result of the destination's Stat is not tested for nil in a shape this rule interprets: not decided")
+		return
+	}
+	// the value MkdirAll is given: a phi of "the parent" and "the path itself";
+	// the edge that carries the path itself must be dead when an entry exists
+	isParent := func(v ssa.Value) bool {
+		call, ok := eng.Canon(v).(*ssa.Call)
+		return ok && c.P.CalleeName(call) == "path/filepath.Dir"
+	}
+	var und bool
+	var hit *eng.Hit
+	decided := false
+	for _, mk := range c.P.CallsTo(fn, "copy.MkdirAll") {
+		arg := mk.Common().Args[0]
+		ph, isPhi := arg.(*ssa.Phi)
+		if !isPhi {
+			if isParent(arg) {
+				decided = true
+			}
+			continue
+		}
+		for i, e := range ph.Edges {
+			if isParent(e) {
+				continue
+			}
+			decided = true
+			pred := ph.Block().Preds[i]
+			last := pred.Instrs[len(pred.Instrs)-1]
+			// (the edge may come straight from a conditional: then its branch is the edge)
+			h, u := c.ReachableUnder(fn, pins, nil, func(in ssa.Instruction) bool { return in == last })
+			if iff, isIf := last.(*ssa.If); isIf && h != nil {
+				// reaching the If is not taking this edge: decide the edge by its condition
+				tv, known := c.explorer(fn).Truth(iff.Cond, h.St)
+				want := iff.Block().Succs[0] == ph.Block()
+				if known && tv != want {
+					h = nil
+				}
+			}
+			und = und || u
+			if h != nil {
+				hit = h
+			}
+		}
+	}
+	switch {
+	case !decided:
+		c.R.OK(rule, con, c.pos(stat), "the directory MkdirAll is given is not a choice between the parent and the path itself (a shape this rule does not interpret): not decided")
+	case und:
+		c.R.Undecided(rule, con, c.P.Pos(fn.Pos()), "state limit")
+	case hit != nil:
+		c.R.Fail(rule, con, c.pos(hit.Instr), "with an entry found at the destination path MkdirAll can still be given that path itself instead of its parent: on an existing non-directory it fails with ENOTDIR before the copier can replace the obstacle (always-replace) or refuse it; path "+eng.BlockTrace(fn, hit.Trace))
+	default:
+		c.R.OK(rule, con, c.pos(stat), "with an entry at the destination path only its parent is ensured")
 	}
 }
